@@ -3,7 +3,7 @@
    BOUNDED: every complex on at most 4 labelled points, every simplex, all four flag combinations;
    disjoint() on all 1-, 2- and 3-tuples of simplices of every complex on at most 3 points. *)
 From Coq Require Import String ZArith Bool Arith List.
-From SV Require Import Names Rep Complex Homology Filtration Gen World Small Sweeps.
+From SV Require Import Names Rep Complex Homology Filtration Gen World Small Sweeps NamesFacts RepInv Shapes Incidence StarOrder Duality.
 
 Theorem C04_closure_star_lookup_upto4_partial : forall c, In c complexes4 -> chk_closure_star (build c) = true.
 Proof. exact closure_star_upto4. Qed.
@@ -12,3 +12,32 @@ Print Assumptions C04_closure_star_lookup_upto4_partial.
 Theorem C04_disjoint_upto3_partial : forall c, In c complexes3 -> chk_disjoint (build c) = true.
 Proof. exact disjoint_upto3. Qed.
 Print Assumptions C04_disjoint_upto3_partial.
+
+(* EVERY HISTORY: t is in the closure of s iff s is part of t (whatever the flags for the listing
+   direction; both with the simplex itself included) *)
+Theorem C04_closure_star_duality :
+  forall r, sinv r -> forall s t ks is kt it rs rt Ls Lt,
+  assoc s (r_simp r) = Some (ks, is) -> assoc t (r_simp r) = Some (kt, it) ->
+  closureOf r s rs false = Ok Ls -> partOf r t rt false = Ok Lt ->
+  (In t Ls <-> In s Lt).
+Proof. exact closure_star_duality. Qed.
+Print Assumptions C04_closure_star_duality.
+(* closureOf(s) is what is reached from s by face steps, partOf(s) what is reached by coface steps *)
+Theorem C04_closure_is_reachability_by_faces :
+  forall r, sinv r -> forall s k is rev L, assoc s (r_simp r) = Some (k, is) -> closureOf r s rev false = Ok L ->
+  forall t, In t L <-> exists j, fchain r j s t.
+Proof. exact closureOf_spec. Qed.
+Print Assumptions C04_closure_is_reachability_by_faces.
+Theorem C04_star_is_reachability_by_cofaces :
+  forall r, sinv r -> forall s k is rev L, assoc s (r_simp r) = Some (k, is) -> partOf r s rev false = Ok L ->
+  forall t, In t L <-> exists j, cchain r j s t.
+Proof. exact partOf_spec. Qed.
+Print Assumptions C04_star_is_reachability_by_cofaces.
+(* partOf(s, reverse=True) lists simplices of the complex, none twice, every coface of an element
+   before the element (cofaces first: the order deleteSimplex relies on) *)
+Theorem C04_star_listing :
+  forall r, sinv r -> forall s k is L, assoc s (r_simp r) = Some (k, is) -> partOf r s true false = Ok L ->
+  NoDup L /\ (forall t, In t L -> containsSimplex r t = true) /\
+  (forall i t u, nth_error L i = Some t -> In u (cofaces r t) -> exists j, j < i /\ nth_error L j = Some u).
+Proof. exact star_positions. Qed.
+Print Assumptions C04_star_listing.
